@@ -126,6 +126,13 @@ fn probe(a: &[String]) {
         Err(e) => println!("REJECTED {:?}", e),
       }
     }
+    "comments" => {
+      let t = arg(1);
+      match vcore::calls::with_parsed(&t, |c| (vcore::comments::collect(c).into_iter().map(|f| format!("{} = {:?}", f.slot, f.text)).collect::<Vec<_>>(), c.to_string())) {
+        Ok((l, f)) => println!("slots: {:?}\nformatted:\n{}", l, f),
+        Err(e) => println!("REJECTED {:?}", e),
+      }
+    }
     "derivable" => {
       let t = arg(1);
       println!("derivable: {} ; parser accepts: {:?}", c03::derivable(&t), vcore::calls::parses(&t));
